@@ -9,6 +9,7 @@ mod glue;
 mod indicator;
 mod method;
 mod misc;
+mod soak;
 mod vtree;
 mod window;
 
@@ -34,6 +35,7 @@ fn main() {
 			"glue" => glue::run(&mut toks),
 			"text" => misc::text(&mut toks),
 			"candle" => misc::candle(&mut toks),
+			"soak" => soak::run(&mut toks),
 			other => panic!("unknown suite {other}"),
 		};
 		write!(out, "{id}").unwrap();
